@@ -32,7 +32,8 @@ Inductive case :=
 | CDec (xs : list v) (o_sum o_min o_max : oval) (o_count : Z)
 (* window path: function, buffered values and order keys (whole sorted buffer), partition [ps, pe), frame bounds,
    observed outputs of the partition's rows in window order *)
-| CWin (f : wfn) (buf keys : list v) (ps pe : Z) (sb eb : bound) (obs : list oval).
+| CWin (f : wfn) (buf keys : list v) (ps pe : Z) (sb eb : bound) (obs : list oval)
+| CRange (f : wfn) (buf : list v) (pkeys : list Z) (ps pe : Z) (sb eb : bound) (obs : list oval).
 
 Definition avg_w (a : option (Z * Z)) : wval := match a with None => WNull | Some (n, d) => WQ n d end.
 
@@ -51,6 +52,9 @@ Definition ok (c : case) : bool :=
     if existsb (fun w => match w with WPanic => true | _ => false end) model
     then match obs with [OPanic] => true | _ => false end      (* a panic takes the whole query down *)
     else Nat.eqb (length model) (length obs) && forallb (fun p => agrees (fst p) (snd p)) (combine model obs)
+  | CRange f buf pkeys ps pe sb eb obs =>
+    let model := range_part f buf pkeys ps pe sb eb in
+    Nat.eqb (length model) (length obs) && forallb (fun p => agrees (fst p) (snd p)) (combine model obs)
   end.
 
 Definition mismatches (cs : list (N * case)) : list N :=
